@@ -126,6 +126,14 @@ Theorem C11_would_enable : forall (inputs : list sdir) (m : meta),
 Proof. exact would_enable_inputs. Qed.
 Print Assumptions C11_would_enable.
 
+(** Whatever the directives carry (field lists included): would_enable agrees with filtering on every event metadata
+    without fields — the only metadata a (target, level) question can stand for. *)
+Theorem C11_would_enable_fieldless_event : forall (t : sset) (m : meta),
+  is_event m = true -> m_fields m = [] ->
+  would_enable t (m_target m) (m_level m) = targets_enabled t m.
+Proof. exact would_enable_agrees_fieldless_event. Qed.
+Print Assumptions C11_would_enable_fieldless_event.
+
 Theorem C11_would_enable_examples :
   (no_fields ex_inputs /\ would_enable (s_build ex_inputs) ex_application Debug = true) /\
   (exists t m, parse_targets [102; 111; 111; 91; 123; 98; 97; 114; 125; 93; 61; 116; 114; 97; 99; 101] = Some t /\
